@@ -168,7 +168,7 @@ func (schema *Schema) DeepCopy() Schema {
 		Package:        schema.Package,
 		Metadata:       schema.Metadata,
 		EntryPoint:     schema.EntryPoint,
-		EntryPointType: schema.EntryPointType,
+		EntryPointType: schema.EntryPointType.DeepCopy(),
 		Objects: schema.Objects.Map(func(_ string, object Object) Object {
 			return object.DeepCopy()
 		}),
